@@ -55,8 +55,9 @@ type baseTrafficShapingController struct {
 }
 
 func newBaseTrafficShapingControllerWithMetric(r *Rule, metric *ParamsMetric) *baseTrafficShapingController {
-	if r.SpecificItems == nil {
-		r.SpecificItems = make(map[interface{}]int64)
+	specificItems := r.SpecificItems
+	if specificItems == nil {
+		specificItems = make(map[interface{}]int64)
 	}
 	return &baseTrafficShapingController{
 		r:             r,
@@ -65,7 +66,7 @@ func newBaseTrafficShapingControllerWithMetric(r *Rule, metric *ParamsMetric) *b
 		paramIndex:    r.ParamIndex,
 		paramKey:      r.ParamKey,
 		threshold:     r.Threshold,
-		specificItems: r.SpecificItems,
+		specificItems: specificItems,
 		durationInSec: r.DurationInSec,
 		metric:        metric,
 	}
